@@ -666,6 +666,18 @@ func (f *Frame) indexAddr(st *State, ins *ssa.IndexAddr) Value {
 	case *types.Slice:
 		arr, off, ln, _ := sliceParts(base)
 		f.inRange(st, ins, idx, ln)
+		// a sub-slice s[c:] of a slice with offset o has offset o+c: index it as (o, c+idx), so that
+		// its elements are the same terms as the elements of s (quantified invariants about s apply)
+		if off.Op == "bvadd" && len(off.Args) == 2 {
+			a0, a1 := off.Args[0], off.Args[1]
+			if a0.IsConst() {
+				a0, a1 = a1, a0
+			}
+			if a1.IsConst() && !a0.IsConst() {
+				rel := B.BVBin("bvadd", idx, a1)
+				return &Ptr{Arr: arr, Idx: B.IndexAdd(a0, rel), Off: a0, Rel: rel, Key: "[]" + typeKey(t.Elem()), Type: t.Elem()}
+			}
+		}
 		return &Ptr{Arr: arr, Idx: B.IndexAdd(off, idx), Off: off, Rel: idx, Key: "[]" + typeKey(t.Elem()), Type: t.Elem()}
 	case *types.Pointer:
 		at := t.Elem().Underlying().(*types.Array)
